@@ -386,6 +386,8 @@ class SimNet:
         self.datagrams = {"client": [], "server": []}
         self.in_flight = 0
         self.timer_spins = 0
+        self.spin_sources = {}
+        self.zeno = []  # (endpoint, deadline source, deadline, now): expired deadline re-armed twice at the same instant without progress
         self.corrupt_pos = None
         self.written = {}  # (side, stream_id) -> bytes written
         self.fin_written = set()
@@ -475,12 +477,54 @@ class SimNet:
                     ep.spin += 1
                     ep.spin_total = getattr(ep, "spin_total", 0) + 1
                     self.timer_spins += 1
+                    src = self._timer_source(ep.conn, t)
+                    self.spin_sources[src] = self.spin_sources.get(src, 0) + 1
+                    if ep.spin == 1 and not self.lateness and not ep.terminated:
+                        # would a caller that fires timers *exactly* at the requested deadline ever get past this
+                        # instant? Fire once more at the same `now`: the same expired deadline again, with nothing
+                        # sent and no event, is a fixed point (virtual time can never advance for such a caller).
+                        n_out, n_ev = ep.out_count, len(ep.events)
+                        self.call(ep, "handle_timer", now=self.now)
+                        self._drain_events(ep)
+                        for m in self.monitors:
+                            m.before_send(ep, self.now)
+                        for data, addr in self.call(ep, "datagrams_to_send", now=self.now):
+                            self._emit(ep, data, addr)
+                        self._drain_events(ep)
+                        t2 = self.call(ep, "get_timer")
+                        if t2 == t and ep.out_count == n_out and len(ep.events) == n_ev:
+                            self.zeno.append((ep.name, src.split("[")[0], t, self.now))
+                        elif t2 is None or (isinstance(t2, float) and (math.isnan(t2) or math.isinf(t2))) or t2 > self.now:
+                            ep.spin = 0
+                        t = ep.timer_at = t2
+                        if t is None or (isinstance(t, float) and (math.isnan(t) or math.isinf(t))):
+                            for m in self.monitors:
+                                m.on_step(ep, self.now, cause)
+                            return
                     late += min(0.001 * (2 ** min(ep.spin, 10)), 0.05)
                 else:
                     ep.spin = 0
                 self._push(max(t, self.now) + late, "timer", (ep.name, ep.timer_gen))
         for m in self.monitors:
             m.on_step(ep, self.now, cause)
+
+    @staticmethod
+    def _timer_source(conn, t):
+        """which of the connection's deadlines equals the timer it asked for (hooked state, diagnosis only)"""
+        loss = conn._loss
+        for i, space in enumerate(loss.spaces):
+            if space.ack_at is not None and space.ack_at == t:
+                return "ack_at[%d]" % i
+        for i, space in enumerate(loss.spaces):
+            if space.loss_time is not None and space.loss_time == t:
+                return "loss_time[%d]" % i
+        if loss.get_loss_detection_time() == t:
+            return "probe-timeout"
+        if getattr(conn, "_pacing_at", None) == t:
+            return "pacing"
+        if conn._close_at == t:
+            return "close_at"
+        return "unknown"
 
     def _drain_events(self, ep):
         while True:
